@@ -1874,3 +1874,104 @@ Proof.
   erewrite map_ext by (intros t; apply to_plan_cut_of).
   f_equal. apply filter_ext. intros t. rewrite cp_done_cut_of. reflexivity.
 Qed.
+
+(* ====================================================================================================== *)
+(* ---------- the scheduler, sequentially ---------- *)
+Lemma sched_skipped K ostride omax oblock oexec odry s j0 :
+  opt_or ostride (k_default_stride K) <> 0 ->
+  opt_orb odry false = false ->
+  plan_cuts K (opt_or ostride (k_default_stride K)) (clamp (k_maxnew_lo K) (k_maxnew_hi K) (opt_or omax 1)) (log s) <> [] ->
+  opt_orb oblock true = true -> find_inflight K (log s) = Some j0 ->
+  exists s' r e,
+    sched K ostride omax oblock oexec odry s = (s', Ok r) /\ sr_decision r = 2 /\ sr_job r = None /\ sr_result r = []
+    /\ log s' = log s ++ [e]
+    /\ ebody e = BDecided 2 None (sr_planned r) (sr_stride r) (sr_maxnew r) true (sr_exec r) (nlen (msgs (log s)))
+    /\ sr_planned r = plan_cuts K (opt_or ostride (k_default_stride K))
+                                (clamp (k_maxnew_lo K) (k_maxnew_hi K) (opt_or omax 1)) (log s).
+Proof.
+  intros Hs Hd Hp Hb Hi. unfold sched. apply N.eqb_neq in Hs. rewrite Hs, Hd, Hb, Hi.
+  destruct (plan_cuts K (opt_or ostride (k_default_stride K))
+                      (clamp (k_maxnew_lo K) (k_maxnew_hi K) (opt_or omax 1)) (log s)) as [|p0 pr] eqn:Ep; [congruence|].
+  eexists. eexists. eexists. split; [reflexivity|]. cbn. repeat split; reflexivity.
+Qed.
+
+Record sched_outcome (stride : N) (planned : list plan) (exec : bool) (s s' : st) (j : N) (made : list created)
+                     (dec : body) : Prop := {
+  so_log : exists e_sp e_dec frames tail_,
+      log s' = log s ++ [e_sp; e_dec] ++ frames ++ tail_
+      /\ ebody e_sp = BJobSpawned j planned stride /\ ebody e_dec = dec
+      /\ (if exec then exists e_end, tail_ = [e_end] /\ ebody e_end = BJobEnded j 0 made
+                                     /\ Forall2 (ck_for stride s') frames (plan_sort planned)
+                                     /\ Forall2 created_for made frames
+          else tail_ = [] /\ frames = [] /\ made = []);
+  so_fresh : ~ In j (job_ids (log s));
+  so_valid : valid (log s') }.
+
+Theorem sched_creates_planned K ostride omax oblock oexec odry s :
+  valid (log s) ->
+  opt_or ostride (k_default_stride K) <> 0 ->
+  opt_orb odry false = false ->
+  plan_cuts K (opt_or ostride (k_default_stride K)) (clamp (k_maxnew_lo K) (k_maxnew_hi K) (opt_or omax 1)) (log s) <> [] ->
+  (if opt_orb oblock true then find_inflight K (log s) else None) = None ->
+  exists s' r,
+    sched K ostride omax oblock oexec odry s = (s', Ok r)
+    /\ sr_decision r = (if opt_orb oexec true then 4 else 3) /\ sr_err r = None /\ sr_job r = Some (fresh_job (log s))
+    /\ sr_planned r = plan_cuts K (opt_or ostride (k_default_stride K))
+                                (clamp (k_maxnew_lo K) (k_maxnew_hi K) (opt_or omax 1)) (log s)
+    /\ sched_outcome (opt_or ostride (k_default_stride K)) (sr_planned r) (opt_orb oexec true) s s'
+                     (fresh_job (log s)) (sr_result r)
+                     (BDecided 3 (Some (fresh_job (log s))) (sr_planned r) (opt_or ostride (k_default_stride K))
+                               (clamp (k_maxnew_lo K) (k_maxnew_hi K) (opt_or omax 1)) (opt_orb oblock true)
+                               (opt_orb oexec true) (nlen (msgs (log s)))).
+Proof.
+  intros Hv Hs Hd Hp Hi. unfold sched.
+  set (stride := opt_or ostride (k_default_stride K)) in *.
+  set (maxnew := clamp (k_maxnew_lo K) (k_maxnew_hi K) (opt_or omax 1)) in *.
+  pose proof Hs as Hs0. apply N.eqb_neq in Hs0. rewrite Hs0, Hd, Hi. unfold auto_spawn.
+  set (planned := plan_cuts K stride maxnew (log s)) in *.
+  destruct planned as [|p0 pr] eqn:Ep; [congruence|]. rewrite <- Ep. cbn [ar_job].
+  set (j := fresh_job (log s)).
+  set (s1 := append s (BJobSpawned j planned stride)).
+  set (dec := BDecided 3 (Some j) planned stride maxnew (opt_orb oblock true) (opt_orb oexec true) (nlen (msgs (log s)))).
+  set (s2 := append s1 dec).
+  assert (Hv1 : valid (log s1)) by (apply valid_append, Hv).
+  assert (Hv2 : valid (log s2)) by (apply valid_append, Hv1).
+  destruct (opt_orb oexec true) eqn:Ex.
+  - destruct (run_job_ok K j stride planned s2 Hv2) as [sn [made [Hr Hc]]].
+    { intros p Hin. unfold s2, s1. rewrite !msg_full_append_nonmsg by reflexivity.
+      apply (plan_cuts_msgs K stride maxnew). exact Hin. }
+    rewrite Hr.
+    eexists. eexists. split; [reflexivity|]. cbn [sr_decision sr_err sr_job sr_planned sr_result].
+    repeat (split; [reflexivity|]).
+    apply cuts_done_spec in Hc. destruct Hc as [frames [extra [Hl [Ha [Hf [Hm Hvn]]]]]].
+    constructor.
+    + eexists. eexists. exists frames. eexists. split.
+      { cbn [log append]. rewrite Hl. unfold s2. cbn [log append]. unfold s1. cbn [log append].
+        rewrite <- !app_assoc. reflexivity. }
+      split; [reflexivity|]. split; [reflexivity|].
+      eexists. split; [reflexivity|]. split; [reflexivity|]. split; [exact Hf | exact Hm].
+    + apply fresh_job_not_in.
+    + apply (valid_append sn). apply Hvn, Hv2.
+  - eexists. eexists. split; [reflexivity|]. cbn [sr_decision sr_err sr_job sr_planned sr_result].
+    repeat (split; [reflexivity|]).
+    constructor.
+    + eexists. eexists. exists []. exists []. split.
+      { unfold s2, s1. cbn [log append]. rewrite <- !app_assoc. reflexivity. }
+      split; [reflexivity|]. split; [reflexivity|]. auto.
+    + apply fresh_job_not_in.
+    + fold s1. fold dec. exact Hv2.
+Qed.
+
+(* non-vacuity for the scheduler theorems: schedule(execute=false) leaves job 1 in flight, the next schedule call is skipped *)
+Definition demo_inflight : st :=
+  fst (sched real_consts (Some 1) (Some 1) (Some true) (Some false) None (fst (run_ops real_consts st0 [OMsg 0 1; OMsg 1 2] []))).
+Lemma demo_sched_facts :
+  valid (log demo_inflight)
+  /\ find_inflight real_consts (log demo_inflight) = Some 1
+  /\ plan_cuts real_consts 1 (clamp 1 32 1) (log demo_inflight) = [{| pl_ord := 2; pl_seq := 2; pl_mid := 3 |}]
+  /\ map (fun e => enc_body (ebody e)) (skipn 3 (log demo_inflight))
+     = [[3; 1; 1; 1; 2; 2; 3]; [5; 3; 1; 1; 1; 2; 2; 3; 1; 1; 1; 0; 2]].
+Proof.
+  split; [unfold demo_inflight; apply sched_valid, reachable_valid, valid_st0|].
+  repeat split; vm_compute; reflexivity.
+Qed.
